@@ -18,7 +18,9 @@ import (
 	"fmt"
 	"go/ast"
 	"go/format"
+	"go/parser"
 	"go/scanner"
+	"go/token"
 	"go/types"
 	"log"
 	"os"
@@ -194,7 +196,7 @@ func newPackage(program *loader.Program, pkgInfo *loader.PackageInfo, plugins []
 			if bad := firstBadNode(fileInfo.astFile); bad != nil {
 				return nil, fmt.Errorf("cannot rename the derive calls in %s: it does not parse at %s, and writing it back would lose what follows", fileInfo.fullpath, program.Fset.Position(bad.Pos()))
 			}
-			if err := firstSyntaxError(pkgInfo, fileInfo.fullpath); err != nil {
+			if err := firstSyntaxError(fileInfo.fullpath); err != nil {
 				return nil, fmt.Errorf("cannot rename the derive calls in %s: it does not parse (%v), and writing it back could lose part of it", fileInfo.fullpath, err)
 			}
 			info, err := os.Stat(fileInfo.fullpath)
@@ -215,28 +217,16 @@ func newPackage(program *loader.Program, pkgInfo *loader.PackageInfo, plugins []
 	return pkg, nil
 }
 
-// firstSyntaxError returns the first error that the scanner or the parser reported for the file, or nil.
+// firstSyntaxError returns the first error that the scanner or the parser reports for the file, or nil.
 // The parser can skip source text without leaving a placeholder in the syntax tree (x := 1 2 is parsed as x := 1).
-func firstSyntaxError(pkgInfo *loader.PackageInfo, filename string) error {
-	for _, err := range pkgInfo.Errors {
-		switch e := err.(type) {
-		case scanner.ErrorList:
-			for _, one := range e {
-				if one.Pos.Filename == filename {
-					return one
-				}
-			}
-		case *scanner.Error:
-			if e.Pos.Filename == filename {
-				return e
-			}
-		case scanner.Error:
-			if e.Pos.Filename == filename {
-				return e
-			}
-		}
+// The file is parsed once more for this: the errors that the loader recorded bear positions that follow //line directives,
+// which do not tell the file they come from.
+func firstSyntaxError(filename string) error {
+	_, err := parser.ParseFile(token.NewFileSet(), filename, nil, parser.ParseComments)
+	if list, isList := err.(scanner.ErrorList); isList && len(list) > 0 {
+		return list[0]
 	}
-	return nil
+	return err
 }
 
 // firstBadNode returns the first placeholder that the parser left in the file for source it could not parse, or nil.
